@@ -67,7 +67,7 @@ Definition run_C10 (op : bytes) (input : arg) : arg :=
   let pieces := map arg_nat (arg_list (arg_nth 1 (arg_nth 5 input))) in
   match main_run_stream quirks_now fs argv (cut_at pieces stdin) with
   | (es, st) =>
-      let out := stdout_of (body_with_stdin oracle stdin) argv0 es in
+      let out := stdout_tr (body_with_stdin oracle stdin) argv0 es in
       match st with
       | Exit n => AL [AB out; AZ n; AZ 0; AZ 0]
       | Blocked _ => AL [AB out; AZ (-1); AZ 1; AZ 0]
@@ -205,12 +205,24 @@ Definition single_of (o : list arg) (p : bytes) : option bytes :=
 (* drop one report: its first line and the indented lines after it *)
 Fixpoint drop_line (s : bytes) : bytes :=
   match s with [] => [] | c :: r => if c =? 10 then r else drop_line r end.
-Fixpoint drop_indented (fuel : nat) (s : bytes) : bytes :=
-  match fuel with
-  | O => s
-  | S f => match s with 32 :: _ => drop_indented f (drop_line s) | _ => s end
+(* the lines that start with a space, in one pass (descriptions run to megabytes: every function
+   here recurses in tail position only) *)
+Fixpoint drop_indented (at_line_start : bool) (s : bytes) : bytes :=
+  match s with
+  | [] => []
+  | c :: r =>
+      if at_line_start then (if c =? 32 then drop_indented false r else s)
+      else if c =? 10 then drop_indented true r else drop_indented false r
   end.
-Definition skip_report (s : bytes) : bytes := drop_indented (length s) (drop_line s).
+Definition skip_report (s : bytes) : bytes := drop_indented true (drop_line s).
+
+(* [rest] without its prefix [s], if it starts with it *)
+Fixpoint strip_prefix (s rest : bytes) : option bytes :=
+  match s, rest with
+  | [], _ => Some rest
+  | x :: s', y :: rest' => if x =? y then strip_prefix s' rest' else None
+  | _ :: _, [] => None
+  end.
 (* the same for a report known to start with "p: " (the name may contain line feeds) *)
 Definition skip_report_of (p s : bytes) : bytes := skip_report (drop (length p + 2) s).
 
@@ -225,16 +237,19 @@ Fixpoint consume (o : list arg) (items : list item) (rest : bytes) : arg :=
   | IFile p d :: tl =>
       match single_of o p with
       | Some s =>
-          if prefix_of s rest then consume o tl (drop (length s) rest)
-          else if Nat.ltb 1000 d
+          match strip_prefix s rest with
+          | Some rest' => consume o tl rest'
+          | None =>
+          if Nat.ltb 1000 d
           then verdict "a regular file nested deeper than 1000 directories is not reported: " (drop (length p - 40) p)
-          else verdict "a regular file is not reported at its place as in its single-file run (missing, misplaced, duplicated earlier, or suppressed by an earlier entry): " p
+          else verdict "a regular file is not reported at its place as in its single-file run (missing, misplaced, duplicated earlier, suppressed by an earlier entry, or described differently after the files before it): " p
+          end
       | None =>   (* the file cannot even be inspected alone (path beyond the system limit): no demand *)
           if prefix_of (p ++ [58; 32]) rest then consume o tl (skip_report_of p rest) else consume o tl rest
       end
   | ILink p :: tl =>
       match single_of o p with
-      | Some s => if prefix_of s rest then consume o tl (drop (length s) rest) else consume o tl rest
+      | Some s => match strip_prefix s rest with Some rest' => consume o tl rest' | None => consume o tl rest end
       | None => consume o tl rest
       end
   | IBad p :: tl =>
